@@ -47,6 +47,25 @@ Theorem c13_roundtrip_on_reachable : forall bs v,
   allbytes bs -> vehicle_read bs = Ok v -> exists w, vehicle_write v = Ok w /\ vehicle_read w = Ok v.
 Proof. exact vehicle_roundtrip_reachable. Qed.
 
+(* ONE-TO-ONE, both directions, on what decoding can produce: two 4-byte values that decode to the same vehicle are the same 4 bytes,
+   and two decoded vehicles that encode to the same bytes are the same vehicle *)
+Theorem c13_decode_injective : forall bs1 bs2 v,
+  allbytes bs1 -> allbytes bs2 -> vehicle_read bs1 = Ok v -> vehicle_read bs2 = Ok v -> bs1 = bs2.
+Proof. exact vehicle_decode_injective. Qed.
+
+Theorem c13_encode_injective_on_reachable : forall bs1 bs2 v1 v2,
+  allbytes bs1 -> allbytes bs2 -> vehicle_read bs1 = Ok v1 -> vehicle_read bs2 = Ok v2 ->
+  vehicle_write v1 = vehicle_write v2 -> v1 = v2.
+Proof. exact vehicle_write_injective_on_reachable. Qed.
+
+(* ... and why the property says "reachable by decoding": outside that set the writer is NOT one-to-one. For every built-in car the
+   Mod value whose id is the little-endian reading of the car's wire name encodes to the car's bytes; no 4-byte value decodes to it *)
+Theorem c13_encode_collides_only_off_reachable : forall i nm,
+  vehicle_display i = Some nm ->
+  vehicle_write (Mod (le_dec (nm ++ [0]))) = vehicle_write (Builtin i) /\
+  forall bs, allbytes bs -> vehicle_read bs <> Ok (Mod (le_dec (nm ++ [0]))).
+Proof. exact vehicle_write_collides_off_reachable. Qed.
+
 (* the built-in set is LFS's 20 cars (hand transcription), and variant identifiers match names *)
 Theorem c13_builtin_set_is_lfs : same_car_set = true /\ forallb tab_entry_ok vehicle_display_tab = true
                                   /\ nodup_keys vehicle_display_tab = true.
